@@ -132,7 +132,17 @@ func init() {
 			return nil
 		},
 		"vpSharedWrites": func(in *Interp, fr *Frame, args []Value, call *ssa.CallCommon) Value {
+			if len(in.sharedW) > 0 && os.Getenv("VP_DEBUG") != "" {
+				fmt.Fprintf(os.Stderr, "shared writes: %v\n", in.sharedW)
+			}
 			return mkBV(64, uint64(len(in.sharedW)))
+		},
+		"vpSharedWriteAt": func(in *Interp, fr *Frame, args []Value, call *ssa.CallCommon) Value {
+			i := mustConstInt(args[0], "index")
+			if i < len(in.sharedW) {
+				return mkStr(in.sharedW[i])
+			}
+			return mkStr("")
 		},
 		"vpAnd": func(in *Interp, fr *Frame, args []Value, call *ssa.CallCommon) Value {
 			return tAnd(args[0].(*Term), args[1].(*Term))
